@@ -3,17 +3,14 @@ From BG Require Import Base DirectedModel DirectedProofs DirectedIter DirectedUs
 Local Open Scope Z_scope.
 Local Arguments Z.of_nat : simpl never.
 
-Section Conv.
+Section ConvA.
 Context {L : Type}.
-Variable leqb : L -> L -> bool.
-Variable ldef : L.
 Variable has_store : bool.
 Notation dgraph := (@dgraph L).
 Implicit Types g h : dgraph.
 Notation Inv := (Inv has_store).
 Notation V := repaired.
 Notation ledge := (nat * nat * L)%type.
-
 Definition add_all (es : list ledge) (o : outcome dgraph) : outcome dgraph :=
   fold_left (fun acc e => obind acc (fun h => lift (add_edge has_store V h (fst (fst e)) (snd (fst e)) (snd e) false))) es o.
 Fixpoint first_label (i j : nat) (es : list ledge) : option L :=
@@ -53,70 +50,8 @@ Proof.
       * apply mem_false in M. destruct (lfind (i, j) (labels h)) eqn:FF; [exfalso; apply M, IL; congruence|reflexivity].
 Qed.
 
-(* ---- getReversedGraph ---- *)
-Definition rev_edges g (es : list edge) : list ledge := map (fun e => (snd e, fst e, match lfind e (labels g) with Some l => l | None => ldef end)) es.
-Lemma reversed_as_add_all g : Inv g -> forall (es : list edge) o, (forall e, In e es -> In (snd e) (nb g (fst e))) ->
-  fold_left (fun acc e => obind acc (fun h => obind (get_label ldef has_store g (fst e) (snd e) true) (fun l => lift (add_edge has_store V h (snd e) (fst e) l false)))) es o
-  = add_all (rev_edges g es) o.
-Proof.
-  intros I. induction es as [|[i j] t IH]; intros o R; cbn [fold_left rev_edges map add_all]; auto.
-  rewrite IH by (intros; apply R; simpl; auto). fold (rev_edges g t). unfold add_all. f_equal.
-  destruct o as [h| |]; cbn [obind]; auto. cbn [fst snd].
-  pose proof (R (i, j) (or_introl eq_refl)) as Hin. cbn [fst snd] in Hin. pose proof (i_rng _ _ I _ _ Hin) as [Hi Hj].
-  unfold get_label. rewrite (proj2 (in_range_true g i) Hi), (proj2 (in_range_true g j) Hj). cbn [andb].
-  pose proof (i_lab _ _ I) as IL. destruct has_store; cbn [obind]; [|rewrite IL; reflexivity].
-  destruct (lfind (i, j) (labels g)) eqn:F; [reflexivity|]. exfalso. apply (proj2 (IL i j)) in Hin. congruence.
-Qed.
 Lemma init_inv n : Inv (@init L n) /\ KeysOK (@init L n).
 Proof. pose proof (init_refines (L := L) has_store n) as [I _ _ _]. split; [exact I|unfold KeysOK; cbn; constructor]. Qed.
-
-Theorem reversed_spec g : Inv g ->
-  exists h, reversed ldef has_store V g = Val h /\ Inv h /\ KeysOK h /\ size h = size g /\
-    (forall i j, In i (nb h j) <-> In j (nb g i)) /\
-    (has_store = true -> forall i j, lfind (j, i) (labels h) = lfind (i, j) (labels g)).
-Proof.
-  intros I. unfold reversed. rewrite (iterate_flatten g (i_len _ _ I)). cbn [obind].
-  rewrite (reversed_as_add_all g I) by (intros [i j] H; apply DirectedUsers.In_flatten in H; apply H).
-  destruct (init_inv (size g)) as [I0 K0].
-  destruct (add_all_spec (rev_edges g (flatten g)) (init (size g)) I0 K0) as [h [F [I' [K' [S' [E' L']]]]]].
-  { intros e He. unfold rev_edges in He. apply in_map_iff in He as [[i j] [<- H]]. cbn [fst snd init size].
-    apply DirectedUsers.In_flatten in H as [_ H]. apply (i_rng _ _ I) in H. tauto. }
-  exists h. split; [exact F|]. split; auto. split; auto. split; [exact S'|].
-  assert (NB0 : forall i, nb (@init L (size g)) i = []) by (intros i; unfold nb, init; cbn [adj]; apply nth_repeat).
-  assert (RE : forall i j, (exists l, In (j, i, l) (rev_edges g (flatten g))) <-> In j (nb g i)).
-  { intros i j. unfold rev_edges. split.
-    - intros [l H]. apply in_map_iff in H as [[a b] [E H]]. cbn [fst snd] in E. injection E as <- <- _. apply DirectedUsers.In_flatten in H. apply H.
-    - intros H. eexists. apply in_map_iff. exists (i, j). split; [reflexivity|]. apply DirectedUsers.In_flatten. split; auto. apply (i_rng _ _ I) in H; tauto. }
-  split.
-  - intros i j. rewrite E', NB0, RE. split; [intros [[]|H]; auto|auto].
-  - intros HS i j. rewrite (L' HS). cbn [init labels lfind].
-    pose proof (i_lab _ _ I) as IL. rewrite HS in IL.
-    (* the first (and only) occurrence of (j, i, _) carries the label of (i, j) *)
-    assert (FL : forall es, (forall e, In e es -> lfind e (labels g) <> None) -> first_label j i (rev_edges g es) = if existsb (edge_eqb (i, j)) es then lfind (i, j) (labels g) else None).
-    { induction es as [|[a b] t IHt]; intros Hne; cbn [rev_edges map first_label existsb]; auto. cbn [fst snd]. fold (rev_edges g t).
-      unfold edge_eqb at 1; cbn [fst snd]. rewrite (Nat.eqb_sym i a), (Nat.eqb_sym j b), andb_comm.
-      destruct (Nat.eqb_spec a i) as [->|]; cbn [andb]; [destruct (Nat.eqb_spec b j) as [->|]; cbn [andb orb]|cbn [orb]];
-        try (apply IHt; intros; apply Hne; simpl; auto).
-      destruct (lfind (i, j) (labels g)) eqn:FF; [reflexivity|]. exfalso. apply (Hne (i, j)); simpl; auto. }
-    rewrite FL by (intros [a b] H; apply DirectedUsers.In_flatten in H as [_ H]; apply IL; auto).
-    destruct (existsb (edge_eqb (i, j)) (flatten g)) eqn:X; auto.
-    destruct (lfind (i, j) (labels g)) eqn:FF; auto. exfalso.
-    assert (In j (nb g i)) by (apply IL; congruence). assert (existsb (edge_eqb (i, j)) (flatten g) = true); [|congruence].
-    apply existsb_exists. exists (i, j). split; [apply DirectedUsers.In_flatten; split; auto; apply (i_rng _ _ I) in H; tauto|apply edge_eqb_refl].
-Qed.
-
-(* reversing twice gives a graph equal (operator==) to the original *)
-Theorem reversed_twice g : (forall x, leqb x x = true) -> Inv g -> KeysOK g ->
-  exists h h2, reversed ldef has_store V g = Val h /\ reversed ldef has_store V h = Val h2 /\ graph_eqb leqb h2 g = Val true.
-Proof.
-  intros RF I K. destruct (reversed_spec g I) as [h [E [I1 [K1 [S1 [M1 L1]]]]]]. destruct (reversed_spec h I1) as [h2 [E2 [I2 [K2 [S2 [M2 L2]]]]]].
-  exists h, h2. split; auto. split; auto. destruct (graph_eqb_spec leqb has_store h2 g I2 I K2 K) as [b [EB HB]]. rewrite EB. f_equal. apply HB.
-  split; [congruence|]. split.
-  - intros i j. rewrite M2, M1. tauto.
-  - intros e v v' F1 F2. destruct e as [i j]. pose proof (i_lab _ _ I) as IL. destruct has_store eqn:HS.
-    + rewrite (L2 eq_refl), (L1 eq_refl) in F1. rewrite F1 in F2. injection F2 as <-. apply RF.
-    + rewrite IL in F2. discriminate.
-Qed.
 
 (* ---- the edge-list constructor: 1 + largest index vertices (none for an empty list), the edges of the list, first label wins ---- *)
 Definition ctor_from (es : list ledge) (o : outcome dgraph) : outcome dgraph :=
@@ -169,4 +104,79 @@ Proof.
   - intros i j. rewrite E. unfold nb, init; cbn [adj]. destruct i; simpl; split; try tauto; intros [[]|H]; auto.
   - intros HS i j. rewrite (LB HS). reflexivity.
 Qed.
-End Conv.
+End ConvA.
+
+Section ConvB.
+Context {L : Type}.
+Variable leqb : L -> L -> bool.
+Variable ldef : L.
+Variable has_store : bool.
+Notation dgraph := (@dgraph L).
+Implicit Types g h : dgraph.
+Notation Inv := (Inv has_store).
+Notation V := repaired.
+Notation ledge := (nat * nat * L)%type.
+Notation add_all := (add_all has_store).
+(* ---- getReversedGraph ---- *)
+Definition rev_edges g (es : list edge) : list ledge := map (fun e => (snd e, fst e, match lfind e (labels g) with Some l => l | None => ldef end)) es.
+Lemma reversed_as_add_all g : Inv g -> forall (es : list edge) o, (forall e, In e es -> In (snd e) (nb g (fst e))) ->
+  fold_left (fun acc e => obind acc (fun h => obind (get_label ldef has_store g (fst e) (snd e) true) (fun l => lift (add_edge has_store V h (snd e) (fst e) l false)))) es o
+  = add_all (rev_edges g es) o.
+Proof.
+  intros I. induction es as [|[i j] t IH]; intros o R; cbn [fold_left rev_edges map add_all]; auto.
+  rewrite IH by (intros; apply R; simpl; auto). fold (rev_edges g t). unfold add_all. f_equal.
+  destruct o as [h| |]; cbn [obind]; auto. cbn [fst snd].
+  pose proof (R (i, j) (or_introl eq_refl)) as Hin. cbn [fst snd] in Hin. pose proof (i_rng _ _ I _ _ Hin) as [Hi Hj].
+  unfold get_label. rewrite (proj2 (in_range_true g i) Hi), (proj2 (in_range_true g j) Hj). cbn [andb].
+  pose proof (i_lab _ _ I) as IL. destruct has_store; cbn [obind]; [|rewrite IL; reflexivity].
+  destruct (lfind (i, j) (labels g)) eqn:F; [reflexivity|]. exfalso. apply (proj2 (IL i j)) in Hin. congruence.
+Qed.
+Theorem reversed_spec g : Inv g ->
+  exists h, reversed ldef has_store V g = Val h /\ Inv h /\ KeysOK h /\ size h = size g /\
+    (forall i j, In i (nb h j) <-> In j (nb g i)) /\
+    (has_store = true -> forall i j, lfind (j, i) (labels h) = lfind (i, j) (labels g)).
+Proof.
+  intros I. unfold reversed. rewrite (iterate_flatten g (i_len _ _ I)). cbn [obind].
+  rewrite (reversed_as_add_all g I) by (intros [i j] H; apply DirectedUsers.In_flatten in H; apply H).
+  destruct (init_inv (L := L) has_store (size g)) as [I0 K0].
+  destruct (add_all_spec has_store (rev_edges g (flatten g)) (init (size g)) I0 K0) as [h [F [I' [K' [S' [E' L']]]]]].
+  { intros e He. unfold rev_edges in He. apply in_map_iff in He as [[i j] [<- H]]. cbn [fst snd init size].
+    apply DirectedUsers.In_flatten in H as [_ H]. apply (i_rng _ _ I) in H. tauto. }
+  exists h. split; [exact F|]. split; auto. split; auto. split; [exact S'|].
+  assert (NB0 : forall i, nb (@init L (size g)) i = []) by (intros i; unfold nb, init; cbn [adj]; apply nth_repeat).
+  assert (RE : forall i j, (exists l, In (j, i, l) (rev_edges g (flatten g))) <-> In j (nb g i)).
+  { intros i j. unfold rev_edges. split.
+    - intros [l H]. apply in_map_iff in H as [[a b] [E H]]. cbn [fst snd] in E. injection E as <- <- _. apply DirectedUsers.In_flatten in H. apply H.
+    - intros H. eexists. apply in_map_iff. exists (i, j). split; [reflexivity|]. apply DirectedUsers.In_flatten. split; auto. apply (i_rng _ _ I) in H; tauto. }
+  split.
+  - intros i j. rewrite E', NB0, RE. split; [intros [[]|H]; auto|auto].
+  - intros HS i j. rewrite (L' HS). cbn [init labels lfind].
+    pose proof (i_lab _ _ I) as IL. rewrite HS in IL.
+    (* the first (and only) occurrence of (j, i, _) carries the label of (i, j) *)
+    assert (FL : forall es, (forall e, In e es -> lfind e (labels g) <> None) -> first_label j i (rev_edges g es) = if existsb (edge_eqb (i, j)) es then lfind (i, j) (labels g) else None).
+    { induction es as [|[a b] t IHt]; intros Hne; cbn [rev_edges map first_label existsb]; auto. cbn [fst snd]. fold (rev_edges g t).
+      unfold edge_eqb at 1; cbn [fst snd]. rewrite (Nat.eqb_sym i a), (Nat.eqb_sym j b), andb_comm.
+      destruct (Nat.eqb_spec a i) as [->|]; cbn [andb]; [destruct (Nat.eqb_spec b j) as [->|]; cbn [andb orb]|cbn [orb]];
+        try (apply IHt; intros; apply Hne; simpl; auto).
+      destruct (lfind (i, j) (labels g)) eqn:FF; [reflexivity|]. exfalso. apply (Hne (i, j)); simpl; auto. }
+    rewrite FL by (intros [a b] H; apply DirectedUsers.In_flatten in H as [_ H]; apply IL; auto).
+    destruct (existsb (edge_eqb (i, j)) (flatten g)) eqn:X; auto.
+    destruct (lfind (i, j) (labels g)) eqn:FF; auto. exfalso.
+    assert (In j (nb g i)) by (apply IL; congruence). assert (existsb (edge_eqb (i, j)) (flatten g) = true); [|congruence].
+    apply existsb_exists. exists (i, j). split; [apply DirectedUsers.In_flatten; split; auto; apply (i_rng _ _ I) in H; tauto|apply edge_eqb_refl].
+Qed.
+
+(* reversing twice gives a graph equal (operator==) to the original *)
+Theorem reversed_twice g : (forall x, leqb x x = true) -> Inv g -> KeysOK g ->
+  exists h h2, reversed ldef has_store V g = Val h /\ reversed ldef has_store V h = Val h2 /\ graph_eqb leqb h2 g = Val true.
+Proof.
+  intros RF I K. destruct (reversed_spec g I) as [h [E [I1 [K1 [S1 [M1 L1]]]]]]. destruct (reversed_spec h I1) as [h2 [E2 [I2 [K2 [S2 [M2 L2]]]]]].
+  exists h, h2. split; auto. split; auto. destruct (graph_eqb_spec leqb has_store h2 g I2 I K2 K) as [b [EB HB]]. rewrite EB. f_equal. apply HB.
+  split; [congruence|]. split.
+  - intros i j. rewrite M2, M1. tauto.
+  - intros e v v' F1 F2. destruct e as [i j]. pose proof (i_lab _ _ I) as IL. destruct has_store eqn:HS.
+    + rewrite (L2 eq_refl), (L1 eq_refl) in F1. rewrite F1 in F2. injection F2 as <-. apply RF.
+    + rewrite IL in F2. discriminate.
+Qed.
+
+End ConvB.
